@@ -33,12 +33,15 @@ class C11(SessionCheck):
         for i in range(1 if tier == 'quick' else 4):
             # a large backlog of untaken notifications, then requests: the queue must not push back on the session thread
             out.append({'kind': 'e2e', 'sc': {'transport': 'unix', 'profile': ['default', 'junos'][i % 2], 'threads': 1, 'per_thread': 2, 'window': 1,
-                                              'notifs': 0, 'burst': 1500 if tier == 'quick' else 1500 * 4 ** i, 'seg': 'whole', 'timeout': 4, 'slow_first_callback': 0.4,
+                                              # (the requests that follow the burst wait behind it: their timeout grows with its size, so that a
+                                              # loaded machine cannot turn "the session is still reading" into an alarm)
+                                              'notifs': 0, 'burst': 1500 if tier == 'quick' else 1500 * 4 ** min(i, 2), 'seg': 'whole',
+                                              'timeout': 6 if tier == 'quick' else 30, 'slow_first_callback': 0.4,
                                               'seed': rng.randrange(1 << 30)}})
             # the same with MANY SMALL notifications over SSH (the channel buffers what the slow listener has not let the session read yet):
             # thousands of complete messages in one transport read
             out.append({'kind': 'e2e', 'sc': {'transport': 'ssh', 'profile': 'default', 'threads': 1, 'per_thread': 2, 'window': 1,
-                                              'notifs': 0, 'burst': 6000 if tier == 'quick' else 20000, 'tiny': True, 'seg': 'whole', 'timeout': 6, 'slow_first_callback': 0.5,
+                                              'notifs': 0, 'burst': 6000 if tier == 'quick' else 20000, 'tiny': True, 'seg': 'whole', 'timeout': 10 if tier == 'quick' else 30, 'slow_first_callback': 0.5,
                                               'seed': rng.randrange(1 << 30)}})
         for i in range(1 if tier == 'quick' else 4):
             # notifications of very different sizes right behind one another, on a machine where building the object for a large one
